@@ -259,6 +259,10 @@ namespace Dune
   {
     bool leading=false;
 
+    // the hex digits are written one by one: a base prefix must not be repeated in front of each of them
+    const bool showbase = (s.flags() & std::ios_base::showbase) != 0;
+    s.unsetf(std::ios_base::showbase);
+
     // print from left to right
     for (int i=n-1; i>=0; i--)
       for (int d=hexdigits-1; d>=0; d--)
@@ -275,6 +279,7 @@ namespace Dune
       }
     if (leading) s << "0";
     s << std::dec;
+    if (showbase) s.setf(std::ios_base::showbase);
   }
 
   template <int k>
